@@ -138,7 +138,11 @@ contract(MUX + "add", props=["C12"],
          ensures=[("added", "source in self._prefetched_events"),
                   ("others", "forall(lambda s=EventSource: implies(not same_object(s, source), (s in self._prefetched_events) == old(s in self._prefetched_events)))"),
                   ("slots_kept", "forall(lambda s=EventSource: implies(old(s in self._prefetched_events), same_object(self._prefetched_events[s], old(self._prefetched_events[s]))))"),
-                  ("new_slot_empty", "implies(not old(source in self._prefetched_events), is_none(self._prefetched_events[source]))")],
+                  ("new_slot_empty", "implies(not old(source in self._prefetched_events), is_none(self._prefetched_events[source]))"),
+                  # subscription order: a new source comes after every source already there; the others keep their place
+                  ("appended_last", "implies(not old(source in self._prefetched_events), forall(lambda s=EventSource: implies(old(s in self._prefetched_events), "
+                                    "rank(self._prefetched_events, s) < rank(self._prefetched_events, source))))"),
+                  ("order_kept", "forall(lambda s=EventSource: implies(old(s in self._prefetched_events), rank(self._prefetched_events, s) == old(rank(self._prefetched_events, s))))")],
          modifies=["content(self._prefetched_events)"])
 MUX_MOD = ["content(self._prefetched_events)", "every(EventSource)"]
 contract(MUX + "_prefetch", props=["C12"],
@@ -174,6 +178,10 @@ contract(MUX + "pop", props=["C12", "C03", "C15"], returns="Tuple[Opt[EventSourc
                   # the oldest due event is the one returned: nothing left in the look-ahead slots is due and older
                   ("oldest", "implies(not_none(result[1]), forall(lambda s=EventSource: implies(mux_due(self, s, max_dt), result[1].when <= self._prefetched_events[s].when)))"),
                   ("none_means_nothing_due", "implies(is_none(result[1]), forall(lambda s=EventSource: not mux_due(self, s, max_dt)))"),
+                  # C03/C12: among due events with the same time the source subscribed first is served first
+                  ("earliest_subscribed_on_ties", "implies(not_none(result[0]), forall(lambda s=EventSource: implies(mux_due(self, s, max_dt) and self._prefetched_events[s].when == result[1].when, "
+                                                  "rank(self._prefetched_events, result[0]) < rank(self._prefetched_events, s))))"),
+                  ("order_kept", "forall(lambda s=EventSource: implies(old(s in self._prefetched_events), rank(self._prefetched_events, s) == old(rank(self._prefetched_events, s))))"),
                   # an event already waiting in a slot is returned by this call or still there: never dropped, never duplicated
                   ("no_loss", "forall(lambda s=EventSource: implies(old(s in self._prefetched_events) and old(not_none(self._prefetched_events[s])), "
                               "ite(not_none(result[0]) and same_object(s, result[0]), same_object(result[1], old(self._prefetched_events[s])), "
@@ -186,6 +194,9 @@ contract(MUX + "pop", props=["C12", "C03", "C15"], returns="Tuple[Opt[EventSourc
              ("both", "is_none(ret_source) == is_none(ret_event)"),
              ("cand", "implies(not_none(ret_event), (ret_source in SEEN) and same_object(self._prefetched_events[ret_source], ret_event) and ret_event.when <= max_dt)"),
              ("oldest", "forall(lambda s=EventSource: implies((s in SEEN) and mux_due(self, s, max_dt), not_none(ret_event) and ret_event.when <= self._prefetched_events[s].when))"),
+             ("earliest_on_ties", "forall(lambda s=EventSource: implies((s in SEEN) and mux_due(self, s, max_dt) and not_none(ret_event) and self._prefetched_events[s].when == ret_event.when "
+                                  "and not same_object(s, ret_source), rank(self._prefetched_events, ret_source) < rank(self._prefetched_events, s)))"),
+             ("order_kept", "forall(lambda s=EventSource: implies(ENTRY(s in self._prefetched_events), rank(self._prefetched_events, s) == ENTRY(rank(self._prefetched_events, s))))"),
              ("filled_kept", "forall(lambda s=EventSource: implies(ENTRY(s in self._prefetched_events) and ENTRY(not_none(self._prefetched_events[s])), "
                              "same_object(self._prefetched_events[s], ENTRY(self._prefetched_events[s]))))")],
              modifies=MUX_MOD)})
